@@ -313,7 +313,35 @@ def bad_body(case):
 @st.composite
 def ill_case(draw):
     nord = draw(st.sampled_from([4, 3, 2, 5, 1, 4, 3, 2]))
-    kind = draw(st.sampled_from(['gap', 'gap', 'three-islands', 'zero-weight-run', 'all-zero-weight', 'few-points', 'lone-end-point', 'zero-weight-tail', 'zero-weight-head']))
+    kind = draw(st.sampled_from(['gap', 'gap', 'three-islands', 'zero-weight-run', 'all-zero-weight', 'few-points', 'lone-end-point', 'zero-weight-tail', 'zero-weight-head', 'sparse-regions']))
+    if kind == 'sparse-regions':
+        # unit-spaced explicit breakpoints; at two or three places the data are too thin (empty segment, a segment holding one point, empty
+        # segment, ...) without any coefficient having a zero diagonal, so the banded factorisation itself fails, reports only the FIRST bad
+        # column, and the fit needs one masking round per region
+        nord = draw(st.sampled_from([2, 2, 3]))
+        nseg = draw(st.integers(26, 40))
+        nreg = draw(st.sampled_from([2, 2, 3]))
+        starts, pos = [], draw(st.integers(4, 9))
+        for _ in range(nreg):
+            if pos + 6 < nseg - 3:
+                starts.append(pos)
+            pos += draw(st.integers(8, 12))
+        long_ = draw(st.booleans())
+        empty, single = set(), set()
+        for s0 in starts:
+            empty.update([s0, s0 + 2] + ([s0 + 4] if long_ else []))
+            single.update([s0 + 1] + ([s0 + 3] if long_ else []))
+        jit = draw(st.sampled_from([0.0, 0.0, 0.0625]))
+        x = []
+        for seg in range(nseg):
+            if seg in empty:
+                continue
+            if seg in single:
+                x.append(seg + 0.5)
+                continue
+            x += [seg + 0.25 - jit, seg + 0.5, seg + 0.75 + jit / 2]
+        return dict(x=x, nord=nord, kind=kind, bkspace=1.0, bkpt=[float(i) for i in range(nseg + 1)], how='refit', maxiter=0, run=[0.1, 0.1],
+                    regions=[[s0, s0 + (4 if long_ else 2)] for s0 in starts])
     n = draw(st.integers(12, 120))
     u = [0.5 * (1 + draw(uf)) for _ in range(n)]
     if kind == 'gap':
@@ -366,7 +394,10 @@ def ill_body(case):
         if not np.all(sset.mask):
             note_label('breakpoints-masked')
         return
-    b = call(bspline, x, nord=case['nord'], bkspace=case['bkspace'])
+    if case.get('bkpt') is not None:
+        b = call(bspline, x, nord=case['nord'], bkpt=np.array(case['bkpt'], dtype='f8'))
+    else:
+        b = call(bspline, x, nord=case['nord'], bkspace=case['bkspace'])
     before = np.asarray(b.mask).copy()
     for it in range(12 if case['how'] == 'refit' else 1):
         prev = np.asarray(b.mask).copy()
@@ -406,6 +437,31 @@ def ill_body(case):
                     cf = np.asarray(b.coeff, dtype='f8')[mk[nord:]]
                     check(cf.shape == ref.shape and bool(np.all(np.abs(cf - ref) <= 1e-6 * max(1.0, np.abs(ref).max()) * (1 + (sv[0] / sv[-1]) ** 2 * 1e-8))),
                           'ill:refit-coefficients-differ-from-dense-solve', lambda: dict(maxdev=float(np.abs(cf - ref).max()) if cf.shape == ref.shape else 'shape'))
+    # status -2 says "this cannot be fitted": it is a false report when the breakpoints still in play carry a comfortably well-posed problem
+    # (pydl itself only gives up after its factorisation of exactly these normal equations has failed, which a condition number below 1e4
+    # of the weighted design rules out)
+    if statuses[-1] == -2 and mk.sum() > 2 * case['nord'] and (w > 0).any():
+        tred = np.asarray(b.breakpoints, dtype='f8')[mk]
+        A = bslib.design(tred, case['nord'], x, 'left')
+        Aw = A * np.sqrt(w)[:, None]
+        sv = np.linalg.svd(Aw, compute_uv=False)
+        note_label('status--2-judged')
+        with judge('failure-report'):
+            check(not (len(sv) == A.shape[1] and sv[-1] > 0 and sv[0] / sv[-1] < 1e4), 'ill:status--2-for-a-well-posed-problem-on-the-remaining-breakpoints',
+                  lambda: dict(statuses=statuses, cond=float(sv[0] / sv[-1]), good_breakpoints=int(mk.sum()), nord=case['nord']))
+    # thin regions, few and far apart: dropping the breakpoints strictly inside each of them leaves a well-posed problem (witnessed here by
+    # the condition number of that reduced design), so the report/mask/refit protocol must not end in "cannot be fitted"
+    if case['kind'] == 'sparse-regions' and statuses[-1] == -2:
+        keep = np.ones(len(case['bkpt']), dtype=bool)
+        for a_, b_ in case['regions']:
+            keep[a_ + 1:b_ + 1] = False
+        twit = np.array(case['bkpt'], dtype='f8')[keep]
+        sv = np.linalg.svd(bslib.design(twit, case['nord'], x, 'left') * np.sqrt(w)[:, None], compute_uv=False)
+        if sv[-1] > 0 and sv[0] / sv[-1] < 1e4:
+            note_label('give-up-judged-against-witness')
+            with judge('failure-report'):
+                check(False, 'ill:gives-up-although-dropping-the-breakpoints-inside-the-thin-regions-leaves-a-well-posed-fit',
+                      lambda: dict(statuses=statuses, masked=np.flatnonzero(~mk).tolist(), regions=case['regions'], nord=case['nord'], witness_cond=float(sv[0] / sv[-1])))
     with judge('refit-converges'):
         if case['how'] == 'refit':
             check(statuses[-1] != -1, 'ill:masking-never-converges', lambda: dict(statuses=statuses))
@@ -432,6 +488,6 @@ SUBCHECKS = [
              classify=lambda c: ['kind:' + c['kind'], 'bw:%d' % c['base']['bw']], quick=1500, thorough=60000, shards=(2, 16),
              doc='indefinite / non-positive / below-mininf / NaN / inf matrices are signalled through the return value'),
     SubCheck('ill_posed_fits', ill_body, strategy=ill_case, classify=ill_classify, nontrivial=ill_nontrivial,
-             quick=1500, thorough=60000, shards=(12, 16), floor=0.01,
+             quick=4000, thorough=60000, shards=(12, 16), floor=0.01,
              doc='gaps, islands, zero-weight runs, too few points: status code + breakpoint mask, never an exception or non-finite coefficients'),
 ]
